@@ -12,6 +12,7 @@ RULES = {
     "C02.R3": "dequantizer: scale * (int8(unpack(data)) - int8(zeropoint)), then ungroup(., axis=t.axis, orig_shape=t.shape) on every per-axis path",
     "C02.R4": "group / ungroup are inverse layouts for axis 0 and -1 (digit-layout interpretation, symbolic sizes)",
     "C02.R5": "narrowing casts: the zero-point cast to int8 and the int8 subtraction stay in range, which needs zeropoint in [0, 2**bits - 1]",
+    "C02.R10": "every weight shape is quantized: a quantization axis of size one (a single row, a single output channel) is not refused on the way from quantize_weight to the affine quantizer (rule C14.R6 re-checked)",
     "C02.R9": "quantizing and dequantizing are functions of their arguments alone: nothing reachable from dequantize() / the forward of a module writes state that a later call reads (rule C13.R3 re-checked: a memoised dequantization hands out a tensor its first caller may have modified)",
     "C02.R8": "no intermediate of the affine range / zero-point exceeds the extrema by construction (rule C16.R6): a float16 group with |min| of a few thousand must not overflow on the way to its zero-point",
     "C02.R7": "the codes survive storage: packing then unpacking the low-bit payload is lossless for every row count (rules C04.R1-R3, re-checked here)",
@@ -105,6 +106,8 @@ def run(chk):
         from ..effects import EffectGraph
         from . import c13
         c13.inference_effects(AliasedCheck(chk, {"C13.R3": "C02.R9"}), EffectGraph(chk.repo))
+        from . import c14
+        c14.size_one_axis(AliasedCheck(chk, {"C14.R6": "C02.R10"}))
     from . import c04_layout
     c04_layout.group_ungroup(chk, "C02.R4")
     chk.assume("torch.round / clamp / to semantics; unpacked codes lie in [0, 2**bits - 1] (C04)")
